@@ -314,3 +314,19 @@ def C03(run):
                        "Non-trivial = more than 3 fork steps; distinct by content.")
     run.assumptions += ["bstream/forkable is trusted as the producer of steps", "no fork branches directly off the initial LIB block "
                         "(forkable reports no junction for it when initialised from a bare reference: harness artefact)"]
+
+
+def C16(run):
+    q = run.tier == "quick"
+    run.model_check("MCWorker", "MCWorker.cfg", workers=1)
+    run.model_check("MCWorker", "MCWorker_transient.cfg", workers=1)
+    _system_trace(run, "C16:", "faults", n=(5 if q else 150))
+    run.cov["rule"] = ("fault scenarios: per generated program, production runs on a cold cache with 1..3 transient faults placed on random "
+                       "ProcessRange calls of the request (worker unavailable before the call, stream dropped mid-way, service overloaded, "
+                       "connection lost after the job wrote its files) and, in both modes, a deterministic failure of the source mapper at a "
+                       "random block of the range; jobs go through the REAL work.RemoteWorker (retry loop, error classification) over an "
+                       "in-memory gRPC connection to the REAL exported Tier2Service.ProcessRange (toGRPCError, status codes on the wire); "
+                       "the stream and the returned error code are judged by TraceSystem.tla. Non-trivial = every run.")
+    run.assumptions += ["derr.RetryContext's real back-off (1 s Fibonacci) is kept, so the number of fault runs per tier is modest",
+                        "deadline-exceeded x3 (documented to fail the job) is not among the injected transient faults"]
+    run.level = "fault_enumeration"
